@@ -246,6 +246,16 @@ def run(ctx):
     exhaustive(ctx, env, 2)
     if not ctx.quick:
         ctx.info['quick_stride'] = 0
+        # depth 3: a deterministic stride through the alphabet^3 space from the seeded state, as far as the time budget allows
+        n = len(alpha)
+        stride = 997          # prime, so all residues of the three positions are visited
+        idx = ctx.shard
+        total = n ** 3
+        while idx < total and not ctx.out_of_time():
+            combo = (idx // (n * n), (idx // n) % n, idx % n)
+            run_history(ctx, env, list(SEED_STATE) + [alpha[i] for i in combo], 'exhaustive/depth3-stride')
+            ctx.count('hist:depth3')
+            idx += stride * ctx.nshards
 
 
 def replay(ctx, case):
